@@ -29,7 +29,8 @@ def setup(register, COMMON_TB):
             "resource name = DNS-1123 subdomain; namespace = DNS-1123 label; controller name = gateway.nginx.org/PATH",
             "safe = one bare NGINX token (bytes 33..126 except ; { } \" ' # $ \\) whose port, where the notation shows one, denotes a number in 1..65535 "
             "(the weaker reading: values NGINX itself may later refuse, such as host:+80, host: or an unbracketed IPv6 resolver, are not counted)",
-            "the bracketed-IPv6 case of documented=>accepted is checked by the oracle on generated addresses, not proved for all addresses",
+            "documented=>accepted is proved for DNS/IPv4 hosts, bracketed IPv6 hosts and all ports; the portless unbracketed IPv6 value of the "
+            "optional-port validator is checked by the oracle on generated addresses only (theorem C20_bare_host_accepted_partial)",
         ],
         timeout={"quick": 900, "thorough": 7200},
     )
